@@ -53,27 +53,31 @@ theorem hdrBytes_length (p : Params) (aus : List Bytes) : (hdrBytes p aus).lengt
   simp [hdrBytes, writeHeadersGo_length]
 
 theorem writeHeadersGo_spec (p : Params) (first : Bool) (aus : List Bytes) (buf : Bytes) (B : List Bool)
-    (h : HoldsAll buf B) (hv : ∀ au ∈ aus, au.length < 2 ^ p.sl)
+    (pos : Nat) (hpos : pos = B.length) (h : HoldsAll buf B) (hv : ∀ au ∈ aus, au.length < 2 ^ p.sl)
     (hlen : B.length + (auHeaders p first aus).length ≤ buf.length * 8) :
-    HoldsAll (writeHeadersGo p first aus buf B.length).1 (B ++ auHeaders p first aus) := by
-  induction aus generalizing first buf B with
+    HoldsAll (writeHeadersGo p first aus buf pos).1 (B ++ auHeaders p first aus) := by
+  induction aus generalizing first buf B pos with
   | nil => simpa [writeHeadersGo, auHeaders] using h
   | cons au rest ih =>
+    subst hpos
     simp only [auHeaders, List.length_append, bitsOf_length, List.length_replicate] at hlen
-    obtain ⟨a1, a2, a3⟩ := writeBitsGo_spec buf B au.length p.sl h (hv au (by simp)) (by omega)
     generalize hw : (if first = true then p.il else p.dl) = w at hlen
+    obtain ⟨a1, a2, a3⟩ := writeBitsGo_spec buf B au.length p.sl h (hv au (by simp)) (by omega)
     have hB1 : (B ++ bitsOf au.length p.sl).length = B.length + p.sl := by simp [bitsOf_length]
+    have hp1 : (writeBitsGo buf B.length au.length p.sl).2 = (B ++ bitsOf au.length p.sl).length := by
+      rw [a2, hB1]
+    simp only [writeHeadersGo, hw]
+    rw [hp1]
     obtain ⟨b1, b2, b3⟩ := writeBitsGo_spec (writeBitsGo buf B.length au.length p.sl).1
       (B ++ bitsOf au.length p.sl) 0 w a1 (Nat.pow_pos (by omega)) (by rw [hB1, a3]; omega)
-    rw [hB1, ← a2] at b1 b2
     have hB2 : (B ++ bitsOf au.length p.sl ++ bitsOf 0 w).length = B.length + p.sl + w := by
-      simp [bitsOf_length]
-    have := ih false _ (B ++ bitsOf au.length p.sl ++ bitsOf 0 w) b1 (fun x hx => hv x (by simp [hx]))
-      (by rw [hB2, writeBitsGo_length, writeBitsGo_length]; omega)
-    rw [hB2, ← a2, ← b2, a2] at this
-    simp only [writeHeadersGo, auHeaders, hw]
-    rw [← a2]
-    simpa [bitsOf_zero, List.append_assoc] using this
+      simp only [List.length_append, bitsOf_length]
+    have := ih false (writeBitsGo (writeBitsGo buf B.length au.length p.sl).1 (B ++ bitsOf au.length p.sl).length 0 w).1
+      (B ++ bitsOf au.length p.sl ++ bitsOf 0 w)
+      (writeBitsGo (writeBitsGo buf B.length au.length p.sl).1 (B ++ bitsOf au.length p.sl).length 0 w).2
+      (by rw [b2, hB2, hB1]) b1
+      (fun x hx => hv x (by simp [hx])) (by rw [hB2, b3, a3]; omega)
+    simpa [auHeaders, hw, bitsOf_zero, List.append_assoc] using this
 
 /-- **the header bytes are the specified bits**: for AU sizes below `2^SizeLength` the Go loop
 (`WriteBitsUnsafe` into a zeroed buffer) produces exactly `pack (auHeaders …)`. -/
@@ -82,7 +86,7 @@ theorem hdrBytes_eq_pack (p : Params) (aus : List Bytes) (hv : ∀ au ∈ aus, a
   have hl := auHeaders_length p true aus
   rw [← hdrBitsLen_eq] at hl
   apply eq_pack_of_holdsAll
-  · have := writeHeadersGo_spec p true aus (List.replicate (ceil8 (hdrBitsLen p aus.length)) 0) []
+  · have := writeHeadersGo_spec p true aus (List.replicate (ceil8 (hdrBitsLen p aus.length)) 0) [] 0 rfl
       (holdsAll_zeros _) hv (by
         simp only [List.length_nil, Nat.zero_add, List.length_replicate, hl, ceil8]
         split <;> omega)
@@ -100,9 +104,8 @@ theorem writeAggregated_payload_length (c : EncCfg) (p : Params) (aus : List Byt
 
 theorem fragPayload_length (p : Params) (chunk : Bytes) :
     (fragPayload p chunk).length = 2 + ceil8 (p.sl + p.il) + chunk.length := by
-  simp only [fragPayload, List.length_append, be16, List.length_cons, List.length_nil, hdrBytes_length,
-    hdrBitsLen, Nat.add_one_ne_zero, ↓reduceIte, Nat.add_sub_cancel, Nat.zero_mul, Nat.add_zero,
-    Nat.zero_add]
+  have h : hdrBitsLen p (0 + 1) = p.sl + p.il := by simp [hdrBitsLen]
+  simp only [fragPayload, List.length_append, be16, List.length_cons, List.length_nil, hdrBytes_length, h]
 
 /-! ### the fragment loop of the encoder -/
 
